@@ -29,8 +29,8 @@ AnyOp == {"enter", "leave", "notify", "wait", "waitT", "waitN"}
 ProgAny == << <<AnyOp, AnyOp>>, <<AnyOp, AnyOp>>, <<{"enter", "notify", "waitT"}, {"leave", "notify", "wait"}>> >>
 
 \* dispatch_group_async: thread 3 is the worker that runs the blocks and then leaves
-ProgAsync == << <<{"async"}, {"notify"}, {"wait", "waitT"}>>,
-                <<{"async", "enter"}, {"notify", "wait"}, {"leave", "skip"}>>,
+ProgAsync == << <<{"async"}, {"notify", "waitN"}, {"wait", "waitT"}, {"async", "skip"}>>,
+                <<{"async", "enter"}, {"notify", "wait", "waitT"}, {"leave", "skip"}>>,
                 <<>> >>
 
 \* the observation NoMissedZero (not judged, see tools/props/C07.py)
